@@ -232,6 +232,9 @@ def wl_snippet(ctx, idx, rng):
         targ = (t / sig.sample_rate).to(gen.pick(rng, [u.s, u.ms, u.us]))
     else:
         targ = sig.start_time + (t / sig.sample_rate)
+        sc = gen.pick(rng, [None, None, "tai", "tt", "utc"])
+        if sc is not None and sc != targ.scale:
+            targ = getattr(targ, sc)          # the same instant expressed in another time scale
     desc.update(N=N, t=t, n=n, t_kind=tk, form=["samples", "quantity", "time"][form], n_kind=nk)
     ctx.describe_case(desc)
     ctx.sample(desc)
